@@ -499,7 +499,8 @@ class Run:
             s.set("rlimit", 0)
             s.add(z3.Not(t))
             r = s.check()
-            if r == z3.sat and not _has_quantifier(ctx.pc + [t]) and self.on_refuted is not None:
+            # (the library axioms are true facts; a model is only ever used as a candidate input that is replayed natively)
+            if r == z3.sat and not _has_quantifier(ctx.pc[ctx.n_lib:] + [t]) and self.on_refuted is not None:
                 self.on_refuted(ctx, s.model(), self.cur_args, ctx.cur_oid)
             s.pop()
             s.set("timeout", Z3_QUICK_MS)
@@ -507,7 +508,7 @@ class Run:
             self.solver_s += time.time() - t0
             if r == z3.unsat:
                 return "proved", "z3-inc", None
-            if r == z3.sat and not _has_quantifier(ctx.pc + [t]):
+            if r == z3.sat and not _has_quantifier(ctx.pc[ctx.n_lib:] + [t]):
                 return "refuted", "z3-inc", None
             return "unknown", "z3-inc", {"z3": str(r)}
         def z3_fresh(rl):
@@ -663,3 +664,4 @@ def explore(run, on_path=None, max_paths=4000):
 
 from . import lib_mat as _lib_mat      # 2-D arrays / object lists: models + havoc / clone support
 _lib_mat.install(sys.modules[__name__])
+from . import lib_fmt as _lib_fmt      # structured strings for number formatting
